@@ -33,7 +33,8 @@ func Interface(ifaceVar interface{}, ctx *iface.IContext, method string, imp int
 	argLen := reflect.TypeOf(imp).NumIn()
 	funcTabIndex := methodIndexOf(typ, method)
 	maxLen := typ.Method(funcTabIndex).Type.NumIn()
-	if maxLen >= argLen {
+	// imp takes the context plus exactly the method's parameters: fewer or more do not fit
+	if argLen != maxLen+1 {
 		cause := erro.NewArgsNotMatchError(imp, argLen, maxLen+1)
 		return erro.NewIllegalParamCError("interface As()", reflect.ValueOf(imp).String(), cause)
 	}
